@@ -77,6 +77,12 @@ def _int_arm(cls):
             if has_raise and not has_ret:
                 return 'raises', arm, mem
             return 'falls-to-other-arm', arm, mem
+    # no isinstance dispatch at all: a wrapper that forwards the index unchanged to its input
+    if not arms:
+        for n in A.walk_local(fn):
+            if isinstance(n, ast.Return) and isinstance(n.value, ast.Subscript) and A.is_name(n.value.slice, item) \
+                    and A.is_self_attr(n.value.value, INPUT_ATTR):
+                return 'returns', None, mem
     return 'absent', None, mem
 
 
